@@ -885,15 +885,16 @@ func loadEntityNames() []string {
 	if err != nil {
 		return nil
 	}
-	var m map[string]json.RawMessage
+	var m struct {
+		Data []struct{ Name string } `json:"data"`
+	}
 	if json.Unmarshal(b, &m) != nil {
 		return nil
 	}
 	var names []string
-	for k := range m {
-		k = strings.TrimSuffix(strings.TrimPrefix(k, "&"), ";")
-		if k != "" {
-			names = append(names, k)
+	for _, e := range m.Data {
+		if e.Name != "" {
+			names = append(names, e.Name)
 		}
 	}
 	sort.Strings(names)
